@@ -101,6 +101,12 @@ where
         author: &VerifyingKey,
         logs: &[L],
     ) -> Result<Option<BTreeMap<L, SeqNum>>, Self::Error> {
+        // No logs requested means no heights can be found. Returning early also avoids building an
+        // invalid `IN ( )` placeholder list below (`len() - 1` underflows for an empty slice).
+        if logs.is_empty() {
+            return Ok(None);
+        }
+
         let mut encoded_log_ids = Vec::new();
         for log in logs {
             let encoded_log_id =
